@@ -93,6 +93,15 @@ pub const HELP_COMMAND_SHORT: &str = "h";
 
 type Err<'a> = extra::Err<Rich<'a, char>>;
 
+/// Turn a failed number conversion (the number does not fit into the target type) into a parse
+/// error, the parser must never panic on user input.
+pub(super) fn number_or_error<'a, T, E: std::fmt::Display>(
+    res: Result<T, E>,
+    span: chumsky::span::SimpleSpan,
+) -> Result<T, Rich<'a, char>> {
+    res.map_err(|e| Rich::custom(span, format!("invalid number: {e}")))
+}
+
 pub fn hex<'a>() -> impl chumsky::Parser<'a, &'a str, usize, Err<'a>> + Clone {
     let prefix = just("0x").or(just("0X"));
     prefix
@@ -100,7 +109,7 @@ pub fn hex<'a>() -> impl chumsky::Parser<'a, &'a str, usize, Err<'a>> + Clone {
             text::digits(16)
                 .at_least(1)
                 .to_slice()
-                .map(|s: &str| usize::from_str_radix(s, 16).unwrap()),
+                .try_map(|s: &str, span| number_or_error(usize::from_str_radix(s, 16), span)),
         )
         .padded()
         .labelled("hexidecimal number")
@@ -128,7 +137,7 @@ pub fn brkpt_at_line_parser<'a>() -> impl chumsky::Parser<'a, &'a str, Breakpoin
         .repeated()
         .to_slice()
         .then_ignore(just(':'))
-        .then(text::int(10).from_str().unwrapped())
+        .then(text::int(10).from_str().try_map(number_or_error))
         .map(|(file, line): (&str, u64)| BreakpointIdentity::Line(file.trim().to_string(), line))
         .padded()
 }
@@ -136,7 +145,7 @@ pub fn brkpt_at_line_parser<'a>() -> impl chumsky::Parser<'a, &'a str, Breakpoin
 pub fn brkpt_number<'a>() -> impl chumsky::Parser<'a, &'a str, BreakpointIdentity, Err<'a>> {
     text::int(10)
         .from_str()
-        .unwrapped()
+        .try_map(number_or_error)
         .map(|number: u32| BreakpointIdentity::Number(number))
         .padded()
 }
@@ -344,7 +353,7 @@ impl Command {
                     .to(Command::SourceCode(source_code::Command::Function)),
                 text::int(10)
                     .from_str()
-                    .unwrapped()
+                    .try_map(number_or_error)
                     .map(|num| Command::SourceCode(source_code::Command::Range(num)))
                     .padded(),
             )))
@@ -401,7 +410,7 @@ impl Command {
                     .ignore_then(choice((
                         text::int(10)
                             .from_str()
-                            .unwrapped()
+                            .try_map(number_or_error)
                             .map(|number: u32| WatchpointIdentity::Number(number))
                             .padded(),
                         watchpoint_at_address(),
@@ -461,7 +470,7 @@ impl Command {
                 sub_op_w_arg(THREAD_COMMAND_SWITCH_SUBCOMMAND)
                     .ignore_then(text::int(10))
                     .from_str()
-                    .unwrapped()
+                    .try_map(number_or_error)
                     .map(|num| Command::Thread(thread::Command::Switch(num)))
                     .padded(),
             )))
@@ -471,7 +480,7 @@ impl Command {
             .ignore_then(choice((
                 sub_op(FRAME_COMMAND_INFO_SUBCOMMAND).to(Command::Frame(frame::Command::Info)),
                 sub_op(FRAME_COMMAND_SWITCH_SUBCOMMAND)
-                    .ignore_then(text::int(10).from_str().unwrapped())
+                    .ignore_then(text::int(10).from_str().try_map(number_or_error))
                     .map(|num| Command::Frame(frame::Command::Switch(num)))
                     .padded(),
             )))
@@ -529,7 +538,7 @@ impl Command {
                     sub_op(TRIGGER_COMMAND_BRKPT_TRIGGER_SUBCOMMAND)
                         .ignore_then(text::int(10))
                         .from_str()
-                        .unwrapped()
+                        .try_map(number_or_error)
                         .map(|num| {
                             trigger::Command::AttachToDefined(trigger::TriggerEvent::Breakpoint(
                                 num,
@@ -538,7 +547,7 @@ impl Command {
                     sub_op(TRIGGER_COMMAND_WP_TRIGGER_SUBCOMMAND)
                         .ignore_then(text::int(10))
                         .from_str()
-                        .unwrapped()
+                        .try_map(number_or_error)
                         .map(|num| {
                             trigger::Command::AttachToDefined(trigger::TriggerEvent::Watchpoint(
                                 num,
